@@ -131,6 +131,10 @@ def c01_device(rng) -> dict:
         return {"kind": "builtin", "name": gen.pick(rng, gen.BUILTINS)}
     dev = gen.gen_device(rng, p_builtin=0, p_physical=0.15, max_seq=0.5, want_eom=0.2)
     for c in dev["channels"] + dev.get("dmm", []):
+        if "cls" in c and rng.random() < 0.12:  # a limit defined as exactly zero is a limit, not "undefined"
+            c[gen.pick(rng, ["max_abs_detuning", "max_abs_detuning", "max_amp"])] = 0.0
+            c.pop("eom", None)
+            c.pop("min_avg_amp", None)
         if dev["kind"] == "virtual" and rng.random() < 0.3:
             c["max_duration"] = None
         elif rng.random() < 0.6:
@@ -146,7 +150,33 @@ def run_case(ctx, idx, rng, tier):
     mon = LimitsMonitor(ctx)
     r = prog.Runner(ctx, dev, reg, [mon])
     g = gen.ProgGen(rng, dev, reg, r.chspecs, weights=WEIGHTS)
-    g.pulse_fn = boundary_pulse
+    max_seq = r.device.max_sequence_duration
+
+    def pulse_fn(rr, c, phase):
+        # with a device maximum: aim the end of the pulse (after whatever delay is inserted) at the limit +- a few ns
+        if max_seq is not None and rr.random() < 0.35:
+            try:
+                t0 = r.seq.get_duration(g.cur_channel)
+            except Exception:
+                t0 = 0
+            clk, mn = c.get("clock_period", 1), c.get("min_duration", 1)
+            ph = gen.pick(rr, gen.PHASES)
+            amax = c.get("max_amp")
+            a = 1.0 if amax is None else min(1.0, amax)
+            est = 0
+            try:  # the delay the scheduler will insert (does not depend on the pulse's duration)
+                import pulser
+                d0 = -(-max(mn, 1) // clk) * clk
+                est = int(r.seq.estimate_added_delay(pulser.Pulse.ConstantPulse(d0, a, 0.0, ph), g.cur_channel,
+                                                     gen.pick(rr, ["min-delay", "min-delay", "wait-for-all"])))
+            except Exception:
+                est = 0
+            j = gen.pick(rr, [0, 0, -clk, clk, 1, 2, 3, 4, 5, 6, 7, -1, -2, 2 * clk, mn])
+            d = max_seq - t0 - est + j
+            if d >= mn and (c.get("max_duration") is None or d <= c["max_duration"]) and d <= 6000:
+                return {"amp": {"k": "const", "d": int(d), "v": a}, "det": {"k": "const", "d": int(d), "v": 0.0}, "phase": ph}
+        return boundary_pulse(rr, c, phase)
+    g.pulse_fn = pulse_fn
     g.dmm_wf_fn = boundary_dmm_wf
     for _ in range(rng.randint(6, 30)):
         op = g.next_op()
